@@ -45,6 +45,17 @@ func canon(p *packages.Package, e ast.Expr) string {
 				return "(" + canon(p, x.Y) + ">=" + fmt.Sprint(cx) + ")"
 			}
 		}
+		// a constant too large for int64 (1<<63) on the left: mirror without arithmetic
+		if tv, ok := p.TypesInfo.Types[ast.Unparen(x.X)]; ok && tv.Value != nil && tv.Value.Kind() == constant.Int {
+			if _, small := intConst(p, x.X); !small {
+				switch x.Op {
+				case token.GTR:
+					return "(" + canon(p, x.Y) + "<" + tv.Value.ExactString() + ")"
+				case token.LEQ:
+					return "(" + canon(p, x.Y) + ">=" + tv.Value.ExactString() + ")"
+				}
+			}
+		}
 		if cy, ok := intConst(p, x.Y); ok {
 			switch x.Op {
 			case token.LEQ:
